@@ -53,7 +53,7 @@ def check(cx):
         g, _, (payload,) = oks[0]
         cj = []
         conj(g, cj)
-        arbs = [e for e in it.events if e['kind'] == 'arbitrary' and e['fn'] == inst and e['ty'].startswith('std::vec::Vec<f64')]
+        arbs = [e for e in it.events if e['kind'] == 'arbitrary' and e['ty'].startswith('std::vec::Vec<f64')]
         if len(arbs) != 1:
             rep.ob('guard', inst, False, 'expected one Vec<f64>::arbitrary draw for the ends, found %d' % len(arbs), fn=inst, file=file, line=line)
             return
@@ -75,7 +75,7 @@ def check(cx):
         rep.ob('guard', inst + ':normal', ok_norm, 'Ok ⇒ ∀ is_normal(end)' if ok_norm else 'Ok guard: ' + term_str(g)[:300], fn=inst, file=file, line=line,
                msg='an Ok result is not guarded by is_normal on every end (NaN, infinite, zero or subnormal breakpoints can be returned): guard = ' + term_str(g)[:300])
         # sort
-        sorts = [e for e in it.events if e['kind'] == 'sort_by' and e['fn'] == inst]
+        sorts = [e for e in it.events if e['kind'] == 'sort_by']
         ok_sort = False
         why = 'no sort_by on the ends'
         sorted_term = None
